@@ -1,1 +1,48 @@
-From PyecoreV Require Import Model.Kernel.
+(* C01 — opposite references stay symmetric.  Statements only; proofs in
+   Proofs/C01Proofs.v.  Model: Model/Kernel.v (EValue._set, ECollection.remove
+   and their opposite handling, statement by statement).
+   Proved here, for every state, object, feature and multiplicity pairing
+   (1-1, 1-n, n-1, n-n, self-opposites included): the releasing direction —
+   unsetting a single-valued end and removing from a multi-valued end keep
+   `y in x.r  <->  x in y.r'`.  PARTIAL: the linking direction (assign/append
+   with partner stealing), clear/extend/delete and the interplay with
+   containment are not yet theorems; they are carried by the correspondence
+   and the symmetric-pair oracle (harness/props/c01.py). *)
+From Coq Require Import List Bool Arith.
+From PyecoreV Require Import Lib.PyBase Lib.PyList Model.Kernel Proofs.KernelFacts Proofs.C01Proofs.
+Import ListNotations.
+
+Theorem C01_unset_keeps_symmetry_partial :
+  forall m, no_containment m -> wf_opp m ->
+  forall s x f g,
+    sym m s -> shape m s ->
+    f_opp (fd m f) = Some g -> f_many (fd m f) = false ->
+    sym m (snd (set_full m s (x, f) VNone)).
+Proof. exact unset_preserves_sym. Qed.
+Print Assumptions C01_unset_keeps_symmetry_partial.
+
+Theorem C01_remove_keeps_symmetry_partial :
+  forall m, no_containment m -> wf_opp m ->
+  forall s x f g y,
+    sym m s -> shape m s ->
+    f_opp (fd m f) = Some g -> f_many (fd m f) = true -> R s f x y ->
+    sym m (coll_remove_full m s (x, f) (VObj y)).
+Proof. exact remove_preserves_sym. Qed.
+Print Assumptions C01_remove_keeps_symmetry_partial.
+
+(* non-vacuity: a 1-n pair, a reachable symmetric state, and the theorem's conclusion computed *)
+Definition ex_mm : mm :=
+  {| feats := [ {| f_owner := 0; f_isref := true; f_many := false; f_unique := true; f_cont := false;
+                   f_opp := Some 1; f_type := TClass 1; f_default := VNone |};
+                {| f_owner := 1; f_isref := true; f_many := true; f_unique := true; f_cont := false;
+                   f_opp := Some 0; f_type := TClass 0; f_default := VNone |} ];
+     conf := [(0, 0); (1, 1)]; ocls := [0; 0; 1; 1]; enames := []; nres := 0 |}.
+
+Example C01_witness :
+  let s1 := next ex_mm (init_state ex_mm) (OSet 0 0 (VObj 2)) in
+  let s2 := next ex_mm s1 (OSet 1 0 (VObj 2)) in
+  let s3 := next ex_mm s2 (OSet 0 0 (VObj 3)) in
+  let s4 := next ex_mm s3 (ORemove 2 1 (VObj 1)) in
+  (vals s3 (2, 1), vals s3 (3, 1), vals s3 (0, 0), vals s3 (1, 0)) = ([VObj 1], [VObj 0], [VObj 3], [VObj 2])
+  /\ (vals s4 (2, 1), vals s4 (1, 0)) = ([], [VNone]).
+Proof. vm_compute. split; reflexivity. Qed.
